@@ -18,7 +18,7 @@ RULE = ("complete enumeration of call shapes: {@symbolic_function plain function
         "Predicate subclass} x arity 1..3 x number of trailing defaults x per parameter {variable positional, variable "
         "keyword, concrete positional, concrete keyword, omitted} (positional before keyword), each evaluated over "
         "random 2-3 element domains, then evaluated a second time after the bound objects changed, and once more as the "
-        "second condition of a query that binds a further variable, and once directly under not_; random repetitions with other worlds in the thorough tier.  Non-trivial = the call "
+        "second condition of a query that binds a further variable, once directly under not_ and once as the condition of for_all; random repetitions with other worlds in the thorough tier.  Non-trivial = the call "
         "has at least one variable argument; distinct = the call shape")
 ASSUMPTIONS = ["all generated functions / methods / predicate classes share one qualified name per kind (re-definitions "
                "with other signatures), so state keyed by name instead of by object is exposed",
@@ -141,7 +141,7 @@ def witnesses():
 
 def run(spec, ctx):
     import random
-    from krrood.entity_query_language.entity import let, set_of, entity, and_, not_
+    from krrood.entity_query_language.entity import let, set_of, entity, and_, not_, for_all
     from krrood.entity_query_language.quantify_entity import an
     from krrood.entity_query_language.symbolic import SymbolicExpression
     m = ctx["m"]
@@ -296,6 +296,29 @@ def run(spec, ctx):
         problems.append(f"under not_: rows {len(rows4)} != {len(want_rows4)} bindings for which the concrete call is false")
     if want_rows4:
         C["negated_queries_with_answers"] += 1
+    # the call as the condition of for_all over its first variable argument: the body has to be consulted for every
+    # value of the universal variable (call counts are not compared: the operator may stop early)
+    u = var_params[0]
+    rest = var_params[1:]
+    LOG.clear()
+    try:
+        res5 = call(*pos, **kw)
+        if rest:
+            sel5 = [variables[i] for i in rest]
+            rows5 = [tuple(id(r[v]) for v in sel5) for r in an(set_of(sel5, for_all(variables[u], res5))).evaluate()]
+        else:
+            z5 = let(m.P, [m.P(a=1, name="zz")], name="z5")
+            rows5 = [()] * len(list(an(entity(z5, for_all(variables[u], res5))).evaluate()))
+    except Exception as e:
+        return {"status": "fail", "kind": "forall-exception:" + type(e).__name__, "key": None,
+                "detail": f"{shape}: {type(e).__name__}: {e}"[:300]}
+    C["forall_queries"] += 1
+    want_rows5 = sorted(tuple(id(o) for o in combo) for combo in itertools.product(*[doms[i] for i in rest])
+                        if all(_truth(param_values({**dict(zip(rest, combo)), u: uv})) for uv in doms[u]))
+    if sorted(rows5) != want_rows5:
+        problems.append(f"under for_all over the first variable argument: rows {len(rows5)} != {len(want_rows5)}")
+    if want_rows5 and len(doms[u]) > 1:
+        C["forall_queries_with_answers"] += 1
     if problems:
         return {"status": "fail", "kind": "symbolic-evaluation-history", "key": None, "detail": shape + ": " + "; ".join(problems)}
     return {"status": "ok", "nontrivial": True, "shape": shape, "obs": {"calls": len(got_calls), "rows": len(rows)}}
